@@ -756,6 +756,8 @@ class Interp:
                     op = {'lt': 'ge', 'le': 'gt', 'gt': 'le', 'ge': 'lt', 'eq': 'ne', 'ne': 'eq'}[op]
                 f = a.sub(b)
                 n = st.num
+                if op == 'ne' and f.terms and n.divs and n.rem_known_zero(f):
+                    return []
                 if op == 'lt':
                     n.add_fact(f.addc(1))
                 elif op == 'le':
@@ -840,6 +842,8 @@ class Interp:
                 if lo > 0 or hi < 0:
                     return False
                 f = a.sub(b)
+                if f.terms and st.num.divs and st.num.rem_known_zero(f):
+                    return True
                 if st.num.known_nonzero(f):
                     return False
                 if len(f.terms) == 1 and abs(f.terms[0][1]) == 1:
@@ -850,6 +854,25 @@ class Interp:
             if op == 'ne':
                 r = self.decide(st, ('cmp', 'eq', a, b), deep)
                 return None if r is None else (not r)
+        return None
+
+    def float_pred_desc(self, p):
+        """(description, negated) of a predicate that tests a float, else None"""
+        neg = False
+        while p is not None:
+            k = p[0]
+            if k == 'bsym':
+                p = p[2]
+            elif k == 'not':
+                neg = not neg
+                p = p[1]
+            elif k == 'fcls':
+                return (('is_' + p[3], p[2].expr), neg)
+            elif k == 'fcmp':
+                a, b = p[2], p[3]
+                return ((p[1], getattr(a, 'expr', None), getattr(b, 'expr', None)), neg)
+            else:
+                return None
         return None
 
     def mkbool(self, st, pred) -> VBool:
@@ -1435,6 +1458,8 @@ class Interp:
                     r = one(f)
                     if r is not None:
                         sig.append((l, i, r))
+                    elif isinstance(f, VBool) and self.spec.partition_nested_bools:
+                        sig.append((l, i, f.val))
         return tuple(sig)
 
     def run_loop(self, body, fid, head, blocks, entry: State):
@@ -1548,6 +1573,18 @@ class Interp:
         out = []
         if isinstance(v, VBool):
             p = self.bool_pred(v)
+            fp = self.float_pred_desc(p)
+            if fp is not None:
+                out = []
+                tv = {bool(c[0]): c[1] for c in cases}
+                for truth in (True, False):
+                    target = tv.get(truth, t['otherwise'])
+                    states = [st.copy()] if v.val is None else ([st.copy()] if v.val == truth else [])
+                    for s0 in states:
+                        for s2 in (self.assume(s0, p, truth) if v.val is None else [s0]):
+                            s2.notes['fpath'] = s2.notes.get('fpath', ()) + ((fp[0], truth != fp[1]),)
+                            out.append((s2, target))
+                return out
             for cv, target in cases:
                 truth = bool(cv)
                 if v.val is not None:
@@ -1730,13 +1767,14 @@ class Interp:
                 self.spec.d2j_range = (lo, hi)
                 self.kernel_d2j = (args, res)
 
-    def run_internal(self, key):
+    def run_internal(self, key, variant=None):
         """analyse an internal (non-public) function out of line under its precondition"""
         self.root = key
         self.events = []
         self.steps_root = self.steps
         st = State()
         args = self.spec.internal_args(self, st, key)
+        args = self.spec.apply_internal_variant(self, st, args, variant)
         self.spec.inline_assembly = True
         try:
             res = self.call_local(st, key, args)
